@@ -176,6 +176,8 @@ def inputs_for(v, prop, tier, tag):
             "get-arity-3": cmdb(b"GET", b"victim", b"ctl"),
             "del-arity-1": cmdb(b"DEL"),
             "del-good-then-nonutf8": cmdb(b"DEL", b"victim", b"\xff\xfe"),
+            "del-two-good-then-nonutf8": cmdb(b"DEL", b"victim", b"ctl", b"\xff"),
+            "del-good-nonutf8-good": cmdb(b"DEL", b"victim", b"\x80", b"ctl"),
             "del-good-then-int": b"*3\r\n$3\r\nDEL\r\n$6\r\nvictim\r\n:7\r\n",
             "del-good-then-array": b"*3\r\n$3\r\nDEL\r\n$6\r\nvictim\r\n*1\r\n$1\r\nx\r\n",
             "set-nonutf8-key": cmdb(b"SET", b"\xff\xfe", b"x"),
